@@ -453,7 +453,7 @@ class Gen:
       t, n, w = listreg; s.feat('ff-list-shift')
       k = rng.random()
       if k < 0.5: body = [f'{t}[0] <<= {s.expr(w)}', f'for i in range({n - 1}):', f'  {t}[i+1] <<= {t}[i]']
-      elif k < 0.8: body = [f'{t}[0] <<= {s.expr(w)}', f'for i in range({n - 1}, 0, -1):', f'  {t}[i] <<= {t}[i-1]']; s.feat('for-neg-step')
+      elif k < 0.8 and not s.ys_safe: body = [f'{t}[0] <<= {s.expr(w)}', f'for i in range({n - 1}, 0, -1):', f'  {t}[i] <<= {t}[i-1]']; s.feat('for-neg-step')
       else: body = [f'for i in range({n}):', f'  if {s.cond()}:', f'    {t}[i] <<= {s.expr(w)}']
       s.ff_block(body)
     return s
@@ -555,6 +555,7 @@ class Gen:
     s.lines.append(f's.{nm} = [ {kind}( {w} ) for _ in range({n}) ]'); s.feat('signal-list')
     srcs = [l for l in s.lists if l[2] == w and l[1] >= n]
     form = rng.choice(['range1', 'range2', 'range3', 'neg', 'unrolled'])
+    if s.ys_safe and form == 'neg': form = 'range2'      # YosysBehavioralTranslatorL2.visit_For crashes (AttributeError) on a negative step
     s._tmp_added = []
     if form == 'unrolled':
       body = []
@@ -688,10 +689,13 @@ class {cls}( Component ):
   io = 's.a = InPort( 4 ); s.b = InPort( 4 ); s.c = InPort( 1 ); s.w = InPort( 8 ); '
   return [
     ('D_sext_trunc',  mk('D_sext_trunc',  io + 's.o = OutPort( 8 )', 's.o @= sext( trunc( s.w, 4 ), 8 )'), 'sext-of-trunc'),
+    ('D_sext_paren',  mk('D_sext_paren',  io + 's.o = OutPort( 8 )', 's.o @= sext( s.a + (s.b ^ s.a), 8 )'), 'sext-of-parenthesised'),
+    ('D_sext_lit',    mk('D_sext_lit',    io + 's.o = OutPort( 8 )', 's.o @= sext( s.a - 1, 8 )'), 'sext-of-literal'),
     ('D_sext_binop',  mk('D_sext_binop',  io + 's.o = OutPort( 8 )', 's.o @= sext( s.a + s.b, 8 )'), 'sext-of-binop'),
     ('D_sext_ifexp',  mk('D_sext_ifexp',  io + 's.o = OutPort( 8 )', 's.o @= sext( s.a if s.c else s.b, 8 )'), 'sext-of-ifexp'),
     ('D_red_xor',     mk('D_red_xor',     io + 's.o = OutPort( 1 )', 's.o @= reduce_xor( s.a ^ s.b )'), 'reduce-of-binop'),
     ('D_red_or',      mk('D_red_or',      io + 's.o = OutPort( 1 )', 's.o @= reduce_or( s.a & s.b )'), 'reduce-of-binop'),
+    ('D_red_ifexp',   mk('D_red_ifexp',   io + 's.o = OutPort( 1 )', 's.o @= reduce_or( s.a if s.c else s.b )'), 'reduce-of-ifexp'),
     ('D_red_and',     mk('D_red_and',     io + 's.o = OutPort( 1 )', 's.o @= reduce_and( s.a | s.b )'), 'reduce-of-binop'),
     # controls: the same operators on plain signals / slices / concatenations translate correctly
     ('D_sext_sig',    mk('D_sext_sig',    io + 's.o = OutPort( 8 )', 's.o @= sext( s.a, 8 )'), 'control'),
